@@ -29,6 +29,8 @@ func checkC01(c *Ctx) {
 	ruleNoNarrowing(c, "C01.g")
 	c.rule("C01.h", "mailbox-name transformer chunking: ErrShortSrc on a split unit, space check before every write, nSrc after the check", 8)
 	ruleUTF7Chunking(c, "C01.h", "C01.h", "C01.h")
+	c.rule("C01.j", "no stateful transformer is shared through a package-level variable (mailbox names decode independently on every connection)", 1)
+	ruleNoSharedTransformer(c, "C01.j")
 	c.rule("C01.i", "quoted-string scanner: the closing-quote and escape tests see unescaped bytes only", 2)
 	ruleQuotedScanner(c, "C01.i")
 	if list := c.P.Func("internal/imapwire", "Decoder", "List"); list != nil {
